@@ -675,6 +675,95 @@ def rule_r2_valid_member_is_stored(ck, prog, rule='C14.R2', cls='trace::TraceSta
                (', '.join(str(p.line) for p in wit[1:6] if p.n is not None) or '?'))
 
 
+def rule_r8_order_and_get(ck, prog, rule='C14.R8', cls='trace::TraceState'):
+    """(a) Set places the given key first: the insertion of the new pair precedes the copy of the existing members (the copy call is
+    not followed by the insertion).  (b) Get answers what the lookup answered: decision table over IsValidKey x "the key was found".
+    (c) ToHeader writes the member separator before every member except the first: the separator is appended exactly on the
+    paths on which the "first member" flag is false, and the flag is cleared once a member has been written."""
+    from ..symb import returns_under_pins, T, F
+    cnt = 0
+    # (a)
+    f = prog.function(cls + '::Set')
+    g = Graph(prog, f, inline=None, sync_lambdas=False)
+    key, val = f.params[0], f.params[1]
+    ins = [p for p in g.points if p.f is f and p.n is not None and p.n['k'] == 'call' and strip_targs(p.n.get('c', '')).endswith('::AddEntry') and len(p.n.get('args', [])) == 2 and
+           strip_casts(f, p.n['args'][0]).get('id') == key['id'] and strip_casts(f, p.n['args'][1]).get('id') == val['id']]
+    copies = [p for p in g.points if p.f is f and p.n is not None and p.n['k'] == 'call' and strip_targs(p.n.get('c', '')).endswith('::GetAllEntries')]
+    cnt += 1
+    if not ins or not copies:
+        ck.inconclusive(rule, f, 'set-places-the-key-first', None, 'insertion of the new pair / copy of the existing members not found in Set itself')
+    else:
+        after = set()
+        for c_ in copies:
+            after |= g.reachable_from([q for (q, _l) in c_.succ])
+        late = [p for p in ins if p.id in after]
+        ck.verdict(not late, rule, f, 'set-places-the-key-first', (late or ins)[0].n,
+                   'the new pair is inserted before the existing members are copied' if not late else
+                   'Set inserts the given key after the existing members have been copied: the updated key ends up last instead of first (the W3C list is ordered, most recently updated vendor first)')
+    # (b)
+    f = prog.function(cls + '::Get')
+    g = Graph(prog, f, inline=None, sync_lambdas=False)
+    valids = [n for n in f.nodes if n['k'] == 'call' and strip_targs(n.get('c', '')).rsplit('::', 1)[-1] == 'IsValidKey']
+    looks = [n for n in f.nodes if n['k'] == 'call' and strip_targs(n.get('c', '')).endswith('::GetValue')]
+    cnt += 1
+    if not valids or not looks:
+        ck.inconclusive(rule, f, 'get-answers-the-lookup', None, 'validity test / lookup not found in Get')
+    else:
+        bad = None
+        for (v_, l_, want) in ((True, True, {T}), (True, False, {F}), (False, True, {F}), (False, False, {F})):
+            pins = {n['i']: v_ for n in valids}
+            pins.update({n['i']: l_ for n in looks})
+            got = returns_under_pins(g, pins)
+            if got != want and bad is None:
+                bad = 'for a %s key that is %s Get returns %s' % ('valid' if v_ else 'invalid', 'present' if l_ else 'absent', sorted(str(x) for x in got))
+        ck.verdict(bad is None, rule, f, 'get-answers-the-lookup', looks[0], 'Get is true exactly for a valid key that the lookup found (4 rows)' if bad is None else
+                   'TraceState::Get does not report what the lookup found: ' + bad)
+    return cnt
+
+
+def rule_separator_between_members(ck, prog, fn, rule):
+    """ToHeader: the member separator is written before every member except the first (see rule_r8_order_and_get (c))"""
+    from ..symb import feasible_reach
+    f = prog.function(fn)
+    lams = [x for x in prog.funcs.values() if x.d.get('lambda') and x.d.get('parent') == f.key]
+    for lf in lams:
+        seps = [n for n in lf.nodes if n['k'] == 'call' and strip_targs(n.get('c', '')).rsplit('::', 1)[-1] in ('append', 'push_back', 'operator+=') and
+                any(lf.nodes[i]['k'] == 'ref' and 'MembersSeparator' in (lf.nodes[i].get('name') or '') for a in n.get('args', []) if a is not None and a >= 0 for i in list(lf.subtree(a)) + [a])]
+        if not seps:
+            continue
+        flags = sorted({lf.nodes[i]['name'] for n in lf.nodes if n['k'] == 'binop' and n['op'] == '=' for i in [n['lhs']] if strip_casts(lf, i)['k'] == 'ref' and 'bool' in (strip_casts(lf, i).get('t') or '')})
+        if len(flags) != 1:
+            # no assignment (left): the captured boolean the callback tests
+            flags = sorted({n['name'] for n in lf.nodes if n['k'] == 'ref' and 'bool' in (n.get('t') or '') and (n.get('cap') or n.get('sk') in ('capture', 'local'))})
+        if len(flags) != 1:
+            ck.inconclusive(rule, lf, 'separator-between-members', seps[0], 'the "first member" flag of the callback was not recognised')
+            return 1
+        flag = flags[0]
+        g = Graph(prog, lf, inline=None, sync_lambdas=False)
+        sp = [p for p in g.points if p.f is lf and p.n is not None and any(p.n is s_ for s_ in seps)]
+        clears = [p for p in g.points if p.f is lf and p.n is not None and p.n['k'] == 'binop' and p.n['op'] == '=' and strip_casts(lf, p.n['lhs']).get('name') == flag and
+                  strip_casts(lf, p.n['rhs']).get('v') == 0]
+        pin_first = {n['i']: True for n in lf.nodes if n['k'] == 'ref' and n.get('name') == flag}
+        pin_later = {n['i']: False for n in lf.nodes if n['k'] == 'ref' and n.get('name') == flag}
+        # the flag's initial value in the enclosing function
+        init_true = any(d.get('name') == flag and d.get('init') is not None and strip_casts(f, d['init']).get('v') == 1 for n in f.nodes if n['k'] == 'declstmt' for d in n['decls'])
+        why = None
+        if not init_true:
+            why = 'the flag %s does not start as true' % flag
+        elif feasible_reach(g, [g.entry], sp, pins=pin_first) is not None:
+            why = 'a separator is written in front of the first member'
+        elif feasible_reach(g, [g.entry], [g.exit], avoid=sp, pins=pin_later) is not None:
+            why = 'a later member can be written without a separator in front of it'
+        elif not clears or feasible_reach(g, [g.entry], [g.exit], avoid=clears, pins=pin_first) is not None:
+            why = 'the flag is not cleared after the first member: no separator is ever written'
+        ck.verdict(why is None, rule, lf, 'separator-between-members', seps[0],
+                   'a separator precedes every member but the first' if why is None else
+                   'ToHeader: %s - the header does not parse back to the same list' % why)
+        return 1
+    ck.inconclusive(rule, f, 'separator-between-members', None, 'the callback that writes the separator was not found')
+    return 1
+
+
 def run(ck, prog):
     ck.doc('C14.R1', 'no member of TraceState modifies the object it is called on', 5)
     ck.doc('C14.R2', 'validity gates dominate construction; invalid => default/empty; at most 32 members when parsing; what is stored is what was validated; a valid member is always stored', 12)
@@ -682,6 +771,7 @@ def run(ck, prog):
     ck.doc('C14.R4', 'AddEntry bounded by the allocation; new key only while size < 32', 2)
     ck.doc('C14.R5', 'key lookup compares whole keys; the tokenizer hands out the member parts untransformed', 2)
     ck.doc('C14.R6', 'Trim removes exactly the whitespace class on both edges; the right index cannot step below zero', 3)
+    ck.doc('C14.R8', 'Set inserts the given key before it copies the others; Get answers exactly what the lookup found (4-row table); ToHeader writes a separator before every member but the first', 3)
     ck.doc('C14.R7', 'the validators\' regular expressions denote the W3C key/value grammar; true iff a whole-string match', 0)
     ck.doc('C09.R7', '(shared rule) no function-local static of the parse/validate functions is modified after initialisation', 1)
     with ck.canary('C14.R1'):
@@ -690,6 +780,8 @@ def run(ck, prog):
     rule_r2(ck, prog)
     rule_r2_validated_is_stored(ck, prog)
     rule_r2_valid_member_is_stored(ck, prog)
+    rule_r8_order_and_get(ck, prog)
+    rule_separator_between_members(ck, prog, 'trace::TraceState::ToHeader', 'C14.R8')
     rule_r3(ck, prog)
     rule_r4(ck, prog)
     rule_r5(ck, prog)
